@@ -102,6 +102,81 @@ def _replay(case, seed):
     return core.result(v)
 
 
+GAMMAS = [{"name": "gamma", "order": 2, "peak": 0.5}, {"name": "gamma", "order": 4, "peak": 0.75},
+          {"name": "gamma", "order": 6, "peak": 0.9}]
+
+
+def _hist_alphabet(tier):
+    """configurations that pairwise share some but not all of (bank, shift, style, pad, window class)"""
+    out = []
+    for bank in ("gabor", "gammatone"):
+        for S in (2, 3):
+            for style in ("causal", "centered"):
+                for w in ["hamming"] + GAMMAS[:2 if tier == "quick" else 3]:
+                    out.append(dict(kind="si", bank=bank, S=S, style=style, pad=True, window=w,
+                                    log=True, power=False, energy=True))
+    return out
+
+
+def _history(pt, seed):
+    """construction + call histories in ONE process: computers A and B are built one after the
+    other, then compute_full is called on the live instances in the order
+    A(short) A(N) B(short) B(N) A(N') B(0) B(N') - short utterances first, so that an utterance
+    swallowed by the filter-priming skip precedes a real one on the same object - and every result
+    must equal the definition (reference built from fresh objects).  Catches state kept across
+    utterances and caches shared between instances (keyed too coarsely)."""
+    from pydrobert.speech import config, filters
+
+    ca, cb = pt
+    ra, rb = computers.call(cfg.make_computer, ca), computers.call(cfg.make_computer, cb)
+    if ra[0] != "ok" or rb[0] != "ok":
+        return core.result(nontrivial=False, obs="unconstructible", skipped=True)
+    A, B = ra[1], rb[1]
+    if not (cfg.si_domain_ok(A) and cfg.si_domain_ok(B)):
+        return core.result(nontrivial=False, obs="out_of_domain", skipped=True)
+    viol = []
+    evals = nt = 0
+    Ma = ref.geometry(cfg.make_bank(ca["bank"]), ca["S"], ca["style"], ca["pad"])
+    Mb = ref.geometry(cfg.make_bank(cb["bank"]), cb["S"], cb["style"], cb["pad"])
+    plan = [("A", 1), ("A", Ma[0] + 3 * ca["S"]), ("B", max(cb["S"] // 2, 1)), ("B", Mb[0] + 3 * cb["S"]),
+            ("A", Ma[3] + 2), ("B", 0), ("B", Mb[3] + 2)]
+    for step, (who, N) in enumerate(plan):
+        comp, c = (A, ca) if who == "A" else (B, cb)
+        bank = cfg.make_bank(c["bank"])
+        win = cfg.make_window(c["window"])
+        w = win.get_impulse_response(2 * c["S"])
+        x = sig.signal(seed, N, offset=step + 1)
+        want, D = ref.compute_full(x, bank, c["S"], c["style"], c["pad"], w, c["log"], c["power"],
+                                   c["energy"], config.LOG_FLOOR_VALUE)
+        r = computers.call(comp.compute_full, sig.ro(x))
+        evals += 1
+        nt += int(want.shape[0] > 0 and step > 0)
+        tags = dict(what="history", who=who, first_call=bool(step == 0),
+                    after_short_utterance=bool(step in (1, 3)),
+                    same_window_class=bool(type(cfg.make_window(ca["window"])) is type(cfg.make_window(cb["window"]))
+                                           and ca["window"] != cb["window"]))
+        case = dict(pair=[ca, cb])
+        if r[0] != "ok":
+            viol.append(core.violation(dict(tags, aspect="exception", exc=r[1]),
+                                       "step %d %s.compute_full(N=%d) raised %s: %s" % (step, who, N, r[1], r[2]), case))
+            break
+        g = r[1].astype(np.float64)
+        if g.shape != want.shape or not np.all(np.abs(g - want) <= 1e-8 + 1e-8 * np.abs(want)):
+            viol.append(core.violation(
+                dict(tags, aspect="values"),
+                "A=%s B=%s built in one process; call #%d %s.compute_full(N=%d) differs from the definition "
+                "(max|diff| %s)" % (cfg.describe(ca), cfg.describe(cb), step, who, N,
+                                    float(np.max(np.abs(g - want))) if g.shape == want.shape else "shape %r vs %r" % (g.shape, want.shape)),
+                case))
+            break
+    return core.result(viol, evals=evals, nontrivial_count=nt, obs=[len(viol) == 0],
+                       sample=dict(A=ca, B=cb, plan=plan))
+
+
+def _history_replay(case, seed):
+    return _history(tuple(case["pair"]), seed)
+
+
 def subchecks(tier, seed):
     banks = ["gabor", "gammatone", "gammatone_mc", "gabor3", "tri"]
     if tier == "thorough":
@@ -119,7 +194,17 @@ def subchecks(tier, seed):
                             if dt != "float64" and (w is None or not pad) and tier == "quick":
                                 continue
                             pts.append((b, S, style, pad, w, dt))
+    alpha = _hist_alphabet(tier)
+    hist_pts = [(a, b) for a in alpha for b in alpha
+                if a is not b and (a["bank"] == b["bank"] or a["window"] == b["window"] or tier == "thorough")]
     return [core.SubCheck(
+        "histories", hist_pts, lambda p: _history(p, seed),
+        "ordered pairs of SI configurations (sharing bank and/or window class, differing in window "
+        "parameters / shift / style) built in ONE process, then 7 compute_full calls on the live instances "
+        "(short utterances first) each compared with the definition; non-trivial = a frame is produced on "
+        "a re-used instance",
+        axes=dict(alphabet=len(alpha), windows=["hamming"] + [str(g) for g in GAMMAS]),
+        replay=lambda case: _history_replay(case, seed)), core.SubCheck(
         "definition", pts, lambda p: _eval(p, seed),
         "real compute_full vs np.convolve reference; inner loop use_log x use_power x include_energy "
         "x N in {0..3S, M-1, M, M+S, D-1, D, D+1, 2D+3}; out-of-domain shifts skipped; "
